@@ -16,6 +16,7 @@ GEN = ['ThermoRanges']
 OBLIGATIONS = ['PGA.Thermo.' + t for t in [
     'C06_range_is_intersection', 'C06_range_sup_inf', 'C06_range_none_iff', 'C06_range_order_independent',
     'C06_empty_intersection_rejected', 'C06_table_outside_errors', 'C06_nonpositive_T_rejected',
+    'C06_table_setRange_outside_errors', 'C06_table_setRange_inside_value', 'C06_table_setRange_reversed',
     'C06_correlation_outside_errors', 'C06_correlation_outside_signalled', 'C06_estimate_outside_signalled',
     'C06_table_inside_value', 'C06_estimate_inside_value', 'C06_no_internal_error', 'C06_tab_shipped_ranges', 'C06_tab_shipped_ranges_spec',
     'F27_unsignalled_before_repair']]
@@ -23,7 +24,9 @@ RULE = ('cases = (correlation or estimate, temperature, property) triples. Corre
         'and without Cp data (tables of 1..8 points), with / without reference values, range present / absent / degenerate, T_ref '
         'inside, at the ends of and (without Cp data) outside the range; estimates: 1..6 constituents with different, nested, '
         'touching, disjoint and absent ranges, counts integer / fractional / zero / negative, built through GroupLibrary.Estimate; '
-        'random mappings over every shipped library. Temperatures: each bound, its two nextafter neighbours, 1 K and far outside, '
+        'random mappings over every shipped library; correlations of all three classes whose range is changed after construction with '
+        'set_range (cut just beside / well beside T_ref, a tabulated temperature or an old bound; widened; reversed; unchanged), with and '
+        'without the getters used before, asked at all old and new special temperatures against the range they report now. Temperatures: each bound, its two nextafter neighbours, 1 K and far outside, '
         'zero, negative, T_ref and its neighbours. Distinct = distinct (object class, #points or #constituents, range kind, '
         'temperature class, property, outcome class); non-trivial = the temperature is not strictly inside every range involved.')
 ASSUMPTIONS = C5.ASSUMPTIONS + ['validity ranges have a positive lower end (true of every shipped group; ranges reaching T <= 0 are '
@@ -203,6 +206,130 @@ def singles(ctx, batch, n):
                 'range': [float(rng.choice([-50, 0, -0.0])), pts[-1][0] + 10]}
         ctx.count('nonpositive_range')
         check_single(ctx, spec, batch, ('nonpos', spec['kind']), temps=[0.0, pts[0][0], -10.0], want=('cp', 'h'), oracle=False)
+
+
+# ----------------------------------------------------------------------------- ranges changed after construction
+def oracle_reported(ctx, has_cp, has, reported, T, outs, inp):
+    """C06 against the range the object REPORTS NOW (get_range()), whatever it was built with"""
+    for w, o in outs.items():
+        if reported is not None and not L.in_rng(T, reported):
+            if 'ok' in o and not o['warn']:
+                ctx.violation('a value is returned outside the range the correlation reports (get_range()) with neither an error nor a warning',
+                              dict(inp, property=w), expected='error or IncompleteDataWarning', observed=o)
+            elif 'ok' in o and has_cp:
+                ctx.violation('a correlation with Cp data returns a value outside the range it reports (warning only)',
+                              dict(inp, property=w), expected='error', observed=o)
+        elif has[w] and 'ok' not in o and (reported is None or reported[0] > 0):
+            ctx.violation('evaluation inside the reported range does not return a finite number', dict(inp, property=w),
+                          expected='finite value', observed=o)
+
+
+def excluded_range(rng, lo, hi, t0):
+    """a range inside [lo, hi] that no longer contains t0 (cut just beside it or well beside it), or None"""
+    cands = []
+    for d in (None, 0.5, 2.0):
+        a = L.nexta(t0, True) if d is None else t0 + d
+        b = L.nexta(t0, False) if d is None else t0 - d
+        if a <= hi:
+            cands.append([a, hi])
+        if b >= lo and b > 0:
+            cands.append([lo, b])
+    return rng.choice(cands) if cands else None
+
+
+def range_changes(ctx, batch, n):
+    """The range is changed after construction -- set_range() on every class (ThermochemRawData inherits the base method, which
+    looks at the order of the bounds only) -- so that a special temperature of the correlation
+    (T_ref, a tabulated temperature, an old bound) falls outside, or a temperature that was outside comes inside.  Then every
+    getter is asked at every special temperature, old and new: whatever the call sequence, a value outside the range reported
+    NOW needs an error (a warning without Cp data).  A getter that answers from a shortcut before it checks the range, or an
+    inner object that still checks the old range, shows here."""
+    rng = ctx.rng
+    for i in range(n):
+        kind = C5.KINDS[i % 3]
+        npts = rng.choice([1, 2, 3, 4, 6]) if (kind == 'raw' or i % 4) else 0
+        spec = gen_spec(rng, kind, n=npts, rkind='present', tref_mode=None if npts else 'in')
+        spec.pop('via_update', None)
+        if spec['href'] is None:
+            spec['href'] = 1.25
+        if spec['sref'] is None:
+            spec['sref'] = 0.5
+        obj, mk = L.build_impl(spec)
+        if obj is None:
+            raise common.MachineryError('range_changes: constructor refused %r: %s' % (spec, mk))
+        lo, hi = spec['range']
+        tref = spec['tref']
+        specials = {tref: 'tref', lo: 'old_lo', hi: 'old_hi'}
+        if npts:
+            mn, mx = L.table_ends(spec)
+            specials.setdefault(mn, 'at_min')
+            specials.setdefault(mx, 'at_max')
+            if npts >= 3:
+                specials.setdefault(sorted(p[0] for p in spec['pts'])[1], 'at_knot')
+        t0 = tref if rng.random() < 0.3 else rng.choice(sorted(specials))
+        mode = rng.choice(['exclude', 'exclude', 'exclude', 'widen', 'reversed', 'same'])
+        if mode == 'exclude':
+            new = excluded_range(rng, lo, hi, t0)
+            if new is None:
+                mode, new = 'widen', [lo - 10.0 if lo > 10.0 else lo, hi + 25.0]
+        elif mode == 'widen':
+            new = [lo - 10.0 if lo > 10.0 else lo, hi + 25.0]
+        elif mode == 'reversed':
+            new = [hi + 1.0, lo]
+        else:
+            new = [lo, hi]
+        if rng.random() < 0.5:
+            # the getters (and the YAML text, a copy) are used before the change: nothing remembered may outlive it
+            L.pre_evaluate(obj, sorted(specials)) if kind != 'raw' else [L.eval_impl(obj, w, T) for T in specials for w in L.WHICH]
+            ctx.count('range_change_pre_evaluated')
+        try:
+            with warnings.catch_warnings():
+                warnings.simplefilter('ignore')
+                obj.set_range(tuple(new))
+            st = 'ok'
+        except Exception as e:
+            st = L.exc_name(e)
+        reported = L.impl_range(obj)
+        ctx.count('range_change_%s_%s_%s' % (mode, kind if kind == 'raw' else 'inc', st))
+        inp0 = {'spec': spec, 'set_range': new, 'excluded': t0 if mode == 'exclude' else None}
+        want_range = new if st == 'ok' else [lo, hi]
+        if reported != want_range:
+            ctx.violation('after set_range() %s the correlation does not report %s' % ('returned' if st == 'ok' else 'raised', 'the new range' if st == 'ok' else 'its old range'),
+                          inp0, expected=want_range, observed=reported)
+        temps = dict(specials)
+        for b in new:
+            for T in (b, L.nexta(b, True), L.nexta(b, False)):
+                temps.setdefault(T, 'new_bound')
+        temps.setdefault(L.nexta(t0, True), 'beside')
+        temps.setdefault(L.nexta(t0, False), 'beside')
+        has = {w: has_data(spec, w) for w in L.WHICH}
+        for T, cls in sorted(temps.items()):
+            outs = {w: L.eval_impl(obj, w, T, ctx.count) for w in L.WHICH}
+            out_now = not L.in_rng(T, reported)
+            for w in L.WHICH:
+                o = outs[w]
+                ctx.case(('range_change', kind, npts, mode, st, cls, 'outside' if out_now else 'inside', w, 'ok' if 'ok' in o else o['err'], o['warn']))
+            ctx.count('range_change_T_%s_%s' % (cls, 'outside' if out_now else 'inside'))
+            oracle_reported(ctx, bool(npts), has, reported, T, outs, dict(inp0, T=T))
+            # the tie: ThermochemRawData through the model's set_range; the wrapper classes are, after an accepted (refused)
+            # set_range, the correlation the constructor builds with the new (old) range (Props/CorrHistory: HIST_invariant)
+            if kind == 'raw':
+                if True:
+                    batch.append(({'op': 'c06.raw_set_range', 'cor': L.jspec(spec, raw_oracle(spec, obj, T)), 'newrange': [L.J(new[0]), L.J(new[1])],
+                                   'T': L.J(T), 'want': list(L.WHICH)},
+                                  {'mk': 'ok', 'set': st, 'range': reported, 'outs': outs}, dict(inp0, T=T), spec))
+            else:
+                now = dict(spec, range=reported)
+                batch.append(({'op': 'c05.eval', 'cor': L.jspec(now, L.oracle_for(now, obj, T, L.WHICH)), 'T': L.J(T), 'want': list(L.WHICH)},
+                              {'mk': 'ok', 'range': reported, 'outs': outs}, dict(inp0, T=T), now))
+
+
+def raw_oracle(spec, obj, T):
+    """oracle values for a table correlation whose range no longer has to contain T_ref or the table: the points the model
+    consults depend on the table ends, T_ref and T only, so the request is built as if the range were wide enough"""
+    ts = [p[0] for p in spec['pts']] + [spec['tref'], T]
+    wide = dict(spec, range=[min(ts), max(ts)])
+    return L.oracle_for(wide, obj, T, L.WHICH) if T > 0 else {'val': [], 'I': [], 'J': [], 'lg': []}
 
 
 # ----------------------------------------------------------------------------- estimates
@@ -487,6 +614,9 @@ def compare(ctx, batch):
         if rep.get('mk') != impl['mk']:
             ctx.disagree('corr:%s:constructor' % op, inp, impl['mk'], rep.get('mk'))
             continue
+        if 'set' in impl and rep.get('set') != impl['set']:
+            ctx.disagree('corr:%s:set_range outcome' % op, inp, impl['set'], rep.get('set'))
+            continue
         ctx.count('model_mk_' + str(rep.get('mk')))
         if impl['mk'] != 'ok' or 'outs' not in impl:
             continue
@@ -521,7 +651,11 @@ FLOORS = {'single_just_outside_outside': 20, 'single_just_outside_incomplete': 2
           'single_nonpositive_nonfinite': 1, 'single_norange_ok_warn': 5, 'est_just_outside_incomplete': 20,
           'est_just_outside_ok_warn': 10, 'est_at_bound_ok': 30, 'est_mk_assertion': 3, 'est_norange_ok_warn': 5,
           'fold_assertion': 20, 'fold_ok': 20, 'shipped_estimates': 20, 'shipped_single': 100, 'mk_value': 10,
-          'model_h_nonfinite': 1, 'model_h_ok_warn': 20, 'model_cp_outside': 20}
+          'model_h_nonfinite': 1, 'model_h_ok_warn': 20, 'model_cp_outside': 20,
+          'range_change_exclude_raw_ok': 30, 'range_change_exclude_inc_ok': 10, 'range_change_exclude_inc_value': 30,
+          'range_change_T_tref_outside': 20, 'range_change_T_at_min_outside': 10, 'range_change_T_at_max_outside': 10,
+          'range_change_T_old_lo_outside': 10, 'range_change_T_old_hi_outside': 10, 'range_change_pre_evaluated': 60,
+          'corr_c06.raw_set_range': 500}
 
 
 def run(ctx):
@@ -539,6 +673,7 @@ def run_inner(ctx):
     batch5 = []
     C5.constructor_cases(ctx, batch5, ctx.n(60, 1200))      # the range must contain the table and T_ref (raw_data.py:51-63)
     C5.compare_batch(ctx, batch5, 'corr:c05.eval')
+    range_changes(ctx, batch, ctx.n(360, 8000))
     estimates(ctx, batch, ctx.n(120, 3000))
     estimate_histories(ctx, batch, ctx.n(25, 400))
     range_fold(ctx, batch, ctx.n(400, 20000))
@@ -615,6 +750,8 @@ def replay(ctx, rec):
                     oracle_single(ctx, spec, float(t), outs, dict(inp, T=float(t)))
     elif 'constituents' in inp:
         check_estimate(ctx, inp['constituents'], inp['counts'], batch, ('replay',))
+    elif 'set_range' in inp:
+        replay_range_change(ctx, inp)
     else:
         spec = inp['spec']
         T = inp.get('T')
@@ -624,6 +761,32 @@ def replay(ctx, rec):
             temps = [float(t) for t in Ts]
         check_single(ctx, spec, batch, ('replay',), temps=temps)
     return len(ctx.violations) == before
+
+
+def replay_range_change(ctx, inp):
+    spec, new = inp['spec'], inp['set_range']
+    obj, mk = L.build_impl(spec)
+    if obj is None:
+        return
+    for T in [spec['tref']] + [p[0] for p in spec['pts']] + list(spec['range']):
+        for w in L.WHICH:
+            L.eval_impl(obj, w, T)
+    try:
+        with warnings.catch_warnings():
+            warnings.simplefilter('ignore')
+            obj.set_range(tuple(new))
+        st = 'ok'
+    except Exception as e:
+        st = L.exc_name(e)
+    reported = L.impl_range(obj)
+    want_range = new if st == 'ok' else list(spec['range'])
+    if reported != want_range:
+        ctx.violation('after set_range() the correlation does not report the range it should', inp, expected=want_range, observed=reported)
+    T = inp.get('T')
+    has = {w: has_data(spec, w) for w in L.WHICH}
+    for t in (T if isinstance(T, list) else [T] if T is not None else [spec['tref']]):
+        outs = {w: L.eval_impl(obj, w, float(t), ctx.count) for w in L.WHICH}
+        oracle_reported(ctx, bool(spec['pts']), has, reported, float(t), outs, dict(inp, T=float(t)))
 
 
 LEVEL_TEXT = ('Lean 4 theorems, for every list of constituents of any length in any order and every temperature: the estimate range is the '
